@@ -24,6 +24,10 @@ def logical_configs():
     out['nested-params'] = [dict(window=None, region=None, streams={'temp': {'qartod': {'climatology_test': clim, 'gross_range_test': gr}}})]
     out['two-streams'] = [dict(window=None, region=None, streams={'temp': {'qartod': {'gross_range_test': gr}},
                                                                    'sal': {'qartod': {'spike_test': sp, 'gross_range_test': {'fail_span': [0, 40]}}}})]
+    # names that exist in the package without being tests of it: an imported module (np), the logger (L), a class (QartodFlags),
+    # a helper imported from elsewhere (mapdates), a namedtuple (span)
+    out['non-test-names'] = [dict(window=None, region=None, streams={'temp': {'qartod': {'np': {'a': 1}, 'gross_range_test': gr, 'QartodFlags': {}, 'mapdates': {'dates': [1]},
+                                                                                       'L': {}, 'span': {}, 'spike_test': sp}}})]
     out['unknown-entries'] = [dict(window=None, region=None, streams={'temp': {'nomod': {'whatever_test': {'a': 1}},
                                                                                 'qartod': {'bogus_test': {'x': 1}, 'gross_range_test': gr, 'also_bogus': {'y': 2}},
                                                                                 'argo': {'speed_test': {'suspect_threshold': 1, 'fail_threshold': 3}}},
